@@ -637,3 +637,46 @@ def run_earlier_case(case):
             stix2.registry.STIX2_OBJ_MAPS["2.1"][cat].pop(n, None)
     stix2.registry.STIX2_OBJ_MAPS["2.1"]["extensions"].pop(ext, None)
     return ok
+
+
+# ---- objects admitted in interoperability mode (identifiers that are not RFC 4122 UUIDs) are copied and versioned like any other
+def interoperability_objects(case: int, op: int) -> bool:
+    """
+    pre: 0 <= case <= 3 and 0 <= op <= 4
+    post: _
+    """
+    case, op = pick(case, 4), pick(op, 5)
+    with Native():
+        ok = run_interop_case(case, op)
+    V.reached()
+    return ok
+
+
+def run_interop_case(case, op):
+    weird = "identity--00000000-0000-0000-0000-000000000001"
+    mk = [lambda: stix2.v20.Identity(id=weird, name="n", identity_class="individual", interoperability=True),
+          lambda: stix2.v21.Identity(id="identity--aaaaaaaa-0000-0000-0000-000000000001", name="n", interoperability=True),
+          lambda: stix2.parse({"type": "identity", "spec_version": "2.1", "id": weird, "created": "2020-01-01T00:00:00.000Z", "modified": "2020-01-01T00:00:00.000Z", "name": "n",
+                               "created_by_ref": "identity--00000000-0000-0000-0000-000000000009"}, interoperability=True),
+          lambda: stix2.v21.Relationship(weird, "uses", "malware--00000000-0000-0000-0000-000000000002", interoperability=True)][case]
+    o = mk()
+    before = o.serialize()
+    try:
+        if op == 0:
+            r = copy.deepcopy(o)
+            ok = r == o and r.serialize() == before
+        elif op == 1:
+            r = o.new_version(labels=["x"]) if case != 3 else o.new_version(description="d")
+            ok = r.id == o.id and r.created == o.created and r.modified > o.modified
+        elif op == 2:
+            r = o.revoke()
+            ok = r.revoked is True and r.id == o.id
+        elif op == 3:
+            r = markings.add_markings(o, M1)
+            ok = r.object_marking_refs == [M1] and r.id == o.id
+        else:
+            r = markings.add_markings(o, M1, ["id"])
+            ok = markings.is_marked(r, M1, ["id"]) and r.id == o.id
+    except (STIXError, ValueError, TypeError):
+        return False
+    return ok and o.serialize() == before
